@@ -100,49 +100,126 @@ theorem lastFlag_spec (c : Cfg) (lo k : Nat) (last e : Option (Nat × Nat))
       · exact Or.inl h'
       · exact Or.inr ⟨j, h1, h2, h3, by omega⟩
 
-/-- The three outcomes of yielding task `t` (already popped: `rcvd_idx = t + 1`). -/
+theorem dropStale_ge (r : Nat) (l : List (Nat × Nat)) (h : ∀ e ∈ l, r ≤ e.1 + 1) : dropStale r l = l := by
+  cases l with
+  | nil => rfl
+  | cons e l =>
+    have := h e (List.mem_cons_self ..)
+    simp [dropStale]; omega
+
+/-- Dropping the main snapshots of tasks before `t` (`rcvd_idx - 1 = t`). -/
+theorem dropStale_snapListN (c : Cfg) (t lo n : Nat) (h1 : lo ≤ t) (h2 : t ≤ lo + n) :
+    dropStale (t + 1) (snapListN c lo n) = snapListN c t (lo + n - t) := by
+  induction n generalizing lo with
+  | zero =>
+    have : t = lo := by omega
+    subst this
+    simp [snapListN, dropStale]
+  | succ n ih =>
+    by_cases hlt : lo < t
+    · have e2 : lo + 1 + n - t = lo + (n + 1) - t := by omega
+      rw [snapListN]
+      by_cases hf : mflag c lo = true
+      · simp only [hf, if_true, List.singleton_append, dropStale]
+        have : lo + 1 < t + 1 := by omega
+        simp only [this, if_true]
+        rw [ih (lo + 1) (by omega) (by omega), e2]
+      · simp only [hf, if_false, List.nil_append, Bool.false_eq_true]
+        rw [ih (lo + 1) (by omega) (by omega), e2]
+    · have : t = lo := by omega
+      subst this
+      rw [dropStale_ge (t + 1) _ (fun e he => by have := snapListN_ge c t (n + 1) e he; omega)]
+      congr 1; omega
+
+theorem snapListN_interval0 (c : Cfg) (h0 : c.interval = 0) (lo n : Nat) : snapListN c lo n = [] := by
+  induction n generalizing lo with
+  | zero => rfl
+  | succ n ih => simp [snapListN, mflag, h0, ih]
+
+/-- The two outcomes of yielding task `t` (already popped: `rcvd_idx = t + 1`): a snapshot is taken
+exactly when task `t` carries a main snapshot; the alignment assertion cannot fire. -/
 inductive YieldCase (c : Cfg) (s : State) (r : Res) (b t : Nat) (s' : State) (o : Obs) : Prop where
-  | plain (hno : ¬(c.interval ≠ 0 ∧ (s.numYielded + 1) % c.interval = 0)) (ho : o = .item b)
-      (hny : s'.numYielded = s.numYielded + 1) (hms : s'.mainSnaps = s.mainSnaps) (hsn : s'.snap = s.snap)
-  | snap (hI : c.interval ≠ 0) (hdue : (s.numYielded + 1) % c.interval = 0) (hf : mflag c t = true)
+  | plain (hf : mflag c t = false) (ho : o = .item b)
+      (hny : s'.numYielded = s.numYielded + 1)
+      (hms : s'.mainSnaps = snapListN c (t + 1) (s.sendIdx - (t + 1))) (hsn : s'.snap = s.snap)
+  | snap (hI : c.interval ≠ 0) (hf : mflag c t = true)
       (ho : o = .item b) (hny : s'.numYielded = s.numYielded + 1)
       (hms : s'.mainSnaps = snapListN c (t + 1) (s.sendIdx - (t + 1)))
       (hsn : s'.snap = ⟨s.numYielded + 1, r.w, t + 1, applyDelta s.wsnaps r.w r.st⟩)
-  | fail (hI : c.interval ≠ 0) (hdue : (s.numYielded + 1) % c.interval = 0) (hf : mflag c t = false)
-      (ho : o = .assertion) (hny : s'.numYielded = s.numYielded)
-      (hms : s'.mainSnaps = snapListN c (t + 1) (s.sendIdx - (t + 1))) (hsn : s'.snap = s.snap)
 
-theorem yieldItem_cases (c : Cfg) (s : State) (r : Res) (b t lo : Nat) (hio : c.inOrder = true)
+theorem yieldItem_cases (c : Cfg) (s : State) (r : Res) (b t lo : Nat) (hm : c.iterable = false)
     (hms : s.mainSnaps = snapListN c lo (s.sendIdx - lo)) (hlo : lo ≤ t) (hr : s.rcvdIdx = t + 1)
     (hts : t + 1 ≤ s.sendIdx) :
     YieldCase c s r b t (yieldItem c s r b).1 (yieldItem c s r b).2 := by
   unfold yieldItem
   dsimp only
-  by_cases hdue : c.interval ≠ 0 ∧ (s.numYielded + 1) % c.interval = 0
-  · simp only [hdue, and_self, if_true, ne_eq, not_false_eq_true]
-    have hpop : popSnaps (t + 1) (snapListN c lo (s.sendIdx - lo)) none =
-        (lastFlag c lo (t + 1 - lo) none, snapListN c (t + 1) (s.sendIdx - (t + 1))) := by
-      rw [popSnaps_snapListN c (t + 1) lo _ none (by omega) (by omega)]
-      congr 2; omega
-    have hk : t + 1 - lo = (t - lo) + 1 := by omega
-    have hlt : lo + (t - lo) = t := by omega
-    unfold takeSnapshot
-    simp only [hms, hr, hpop, hio, Bool.not_true, Bool.false_eq_true, if_false]
-    rw [hk, lastFlag_snoc, hlt]
+  by_cases h0 : c.interval = 0
+  · rw [if_pos h0]
+    refine .plain (by simp [mflag, h0]) rfl rfl ?_ rfl
+    simp only [hms, snapListN_interval0 c h0]
+  · rw [if_neg h0]
+    obtain ⟨k, hk⟩ : ∃ k, s.sendIdx - t = k + 1 := ⟨s.sendIdx - t - 1, by omega⟩
+    have hk' : s.sendIdx - (t + 1) = k := by omega
+    have hdrop : dropStale (t + 1) (snapListN c lo (s.sendIdx - lo)) =
+        (if mflag c t then [(t, t + 1)] else []) ++ snapListN c (t + 1) k := by
+      rw [dropStale_snapListN c t lo _ hlo (by omega)]
+      have : lo + (s.sendIdx - lo) - t = k + 1 := by omega
+      rw [this, snapListN]
+    have hge : ∀ e ∈ snapListN c (t + 1) k, t + 1 ≤ e.1 := snapListN_ge c (t + 1) k
+    unfold snapshotDue
+    simp only [hm, Bool.false_eq_true, if_false, hms, hr, hdrop, hk']
+    have hms' : snapListN c (t + 1) k = snapListN c (t + 1) (s.sendIdx - (t + 1)) := by rw [hk']
     by_cases hf : mflag c t = true
-    · simp only [hf, if_true]
-      exact .snap hdue.1 hdue.2 hf rfl rfl rfl rfl
-    · simp only [hf, if_false, Bool.false_eq_true]
-      have hf' : mflag c t = false := by simpa using hf
-      rcases lastFlag_spec c lo (t - lo) none _ rfl with h0 | ⟨j, h1, _, _, h4⟩
-      · rw [h0]
-        exact .fail hdue.1 hdue.2 hf' rfl rfl rfl rfl
-      · rw [h1]
-        have : ¬ (j + 1 = t + 1) := by omega
-        simp only [this, if_false]
-        exact .fail hdue.1 hdue.2 hf' rfl rfl rfl rfl
-  · simp only [hdue, if_false]
-    exact .plain hdue rfl rfl rfl rfl
+    · simp only [hf, if_true, List.singleton_append, decide_true]
+      unfold takeSnapshot
+      simp only [popSnaps, Nat.le_refl, if_true, popSnaps_ge (t + 1) _ _ hge]
+      exact .snap h0 hf rfl rfl hms' rfl
+    · have hf' : mflag c t = false := by simpa using hf
+      simp only [hf', Bool.false_eq_true, if_false, List.nil_append]
+      cases hl : snapListN c (t + 1) k with
+      | nil =>
+        simp only [Bool.false_eq_true, if_false]
+        exact .plain hf' rfl rfl (by rw [← hms', hl]) rfl
+      | cons e l =>
+        have := hge e (by rw [hl]; exact List.mem_cons_self ..)
+        have hne : ¬ (e.1 + 1 = t + 1) := by omega
+        simp only [hne, decide_false, Bool.false_eq_true, if_false]
+        exact .plain hf' rfl rfl (by rw [← hms', hl]) rfl
+
+/-- The answer of the map-style `_snapshot_due` when task `t` is being yielded: task `t` carries a main
+snapshot. -/
+theorem snapshotDue_eq_mflag (c : Cfg) (s : State) (t lo : Nat) (hm : c.iterable = false)
+    (hms : s.mainSnaps = snapListN c lo (s.sendIdx - lo)) (hlo : lo ≤ t) (hr : s.rcvdIdx = t + 1)
+    (hts : t + 1 ≤ s.sendIdx) : (snapshotDue c s).2 = mflag c t := by
+  obtain ⟨k, hk⟩ : ∃ k, s.sendIdx - t = k + 1 := ⟨s.sendIdx - t - 1, by omega⟩
+  have hdrop : dropStale (t + 1) (snapListN c lo (s.sendIdx - lo)) =
+      (if mflag c t then [(t, t + 1)] else []) ++ snapListN c (t + 1) k := by
+    rw [dropStale_snapListN c t lo _ hlo (by omega)]
+    have : lo + (s.sendIdx - lo) - t = k + 1 := by omega
+    rw [this, snapListN]
+  have hge : ∀ e ∈ snapListN c (t + 1) k, t + 1 ≤ e.1 := snapListN_ge c (t + 1) k
+  unfold snapshotDue
+  simp only [hm, Bool.false_eq_true, if_false, hms, hr, hdrop]
+  by_cases hf : mflag c t = true
+  · simp [hf]
+  · have hf' : mflag c t = false := by simpa using hf
+    simp only [hf', Bool.false_eq_true, if_false, List.nil_append]
+    cases hl : snapListN c (t + 1) k with
+    | nil => rfl
+    | cons e l =>
+      have := hge e (by rw [hl]; exact List.mem_cons_self ..)
+      have hne : ¬ (e.1 + 1 = t + 1) := by omega
+      simp only [hne, decide_false]
+
+/-- **The new trigger coincides with the old one when yields and tasks are aligned** (`num_yielded = t` when
+task `t` is yielded — what `SnapM.al` gives for error-free runs): `_snapshot_due()` answers
+`(num_yielded + 1) % interval == 0`, the pre-f1014eb test. -/
+theorem snapshot_due_eq_old_of_errFree (c : Cfg) (s : State) (t lo : Nat) (hm : c.iterable = false)
+    (hI : c.interval ≠ 0) (hms : s.mainSnaps = snapListN c lo (s.sendIdx - lo)) (hlo : lo ≤ t)
+    (hr : s.rcvdIdx = t + 1) (hts : t + 1 ≤ s.sendIdx) (hny : s.numYielded = t) :
+    (snapshotDue c s).2 = decide ((s.numYielded + 1) % c.interval = 0) := by
+  rw [snapshotDue_eq_mflag c s t lo hm hms hlo hr hts, hny]
+  simp [mflag, hI]
 
 theorem tryPut_ms (c : Cfg) (s : State) (lo : Nat) (hv : c.Valid) (hm : c.iterable = false) (hio : c.inOrder = true)
     (h : MidM c s) (hms : s.mainSnaps = snapListN c lo (s.sendIdx - lo)) (hlo : lo ≤ s.sendIdx) :
@@ -157,15 +234,48 @@ theorem tryPut_ms (c : Cfg) (s : State) (lo : Nat) (hv : c.Valid) (hm : c.iterab
   · rw [tryPut_map_ge c s hm h.sp (by omega)]
     exact ⟨hms, Nat.le_refl _⟩
 
-/-- The snapshot part of the map-style invariant. -/
+/-- The number of batches yielded once the first `n` tasks have been consumed. -/
+def okCount (c : Cfg) (n : Nat) : Nat := (oks (c.batches.take n)).length
+
+/-- Task `i` exists and its fetch does not fail. -/
+def okAt (c : Cfg) (i : Nat) : Bool :=
+  match c.batches[i]? with
+  | some (.ok _) => true
+  | _ => false
+
+/-- The task position of the snapshot in force once `n` tasks have been consumed: the largest `m ≤ n` such
+that task `m - 1` was dispatched with `snapshot_main` and did not fail; `0` (the initial snapshot) if none. -/
+def lastDue (c : Cfg) : Nat → Nat
+  | 0 => 0
+  | n + 1 => if mflag c n && okAt c n then n + 1 else lastDue c n
+
+theorem okCount_succ (c : Cfg) (n : Nat) (it : Item) (h : c.batches[n]? = some it) :
+    okCount c (n + 1) = okCount c n + (oks [it]).length := by
+  unfold okCount
+  rw [List.take_add_one, h, oks_append, List.length_append]
+  rfl
+
+theorem okAt_ok (c : Cfg) (n b : Nat) (h : c.batches[n]? = some (.ok b)) : okAt c n = true := by
+  unfold okAt; rw [h]
+
+theorem okAt_err (c : Cfg) (n : Nat) (h : c.batches[n]? = some .err) : okAt c n = false := by
+  unfold okAt; rw [h]
+
+theorem lastDue_le (c : Cfg) (n : Nat) : lastDue c n ≤ n := by
+  induction n with
+  | zero => exact Nat.le_refl _
+  | succ n ih => unfold lastDue; split <;> omega
+
+/-- The snapshot part of the map-style invariant — for every interval and every set of failing fetches. -/
 structure SnapM (c : Cfg) (s : State) : Prop where
   ny : s.numYielded = (yields s.obs).length
   ms : ∃ lo, lo ≤ s.rcvdIdx ∧ s.mainSnaps = snapListN c lo (s.sendIdx - lo)
-  al : errFree c → s.numYielded = s.rcvdIdx
-  noas : (c.interval ≤ 1 ∨ errFree c) → Obs.assertion ∉ s.obs
-  st0 : c.interval = 0 → s.snap.step = 0
-  st : c.interval ≠ 0 → c.interval ∣ s.snap.step ∧ s.snap.step ≤ s.numYielded ∧ s.numYielded < s.snap.step + c.interval
-  lw : errFree c → s.snap.lastW = (if s.snap.step = 0 then c.W - 1 else (s.snap.step - 1) % c.W) ∧ s.snap.main = s.snap.step
+  le : s.rcvdIdx ≤ c.batches.length
+  cnt : s.numYielded = okCount c s.rcvdIdx
+  noas : Obs.assertion ∉ s.obs
+  main : s.snap.main = lastDue c s.rcvdIdx
+  step : s.snap.step = okCount c s.snap.main
+  lastW : s.snap.lastW = (if s.snap.main = 0 then c.W - 1 else (s.snap.main - 1) % c.W)
 
 theorem step_keep (I st ny : Nat) (hI : I ≠ 0) (hd : I ∣ st) (h1 : st ≤ ny) (h2 : ny < st + I)
     (hnd : ¬ (ny + 1) % I = 0) : ny + 1 < st + I := by
@@ -189,7 +299,10 @@ theorem popProc_snap (c : Cfg) (s : State) (e : Info) (l : List Info) (r : Res) 
   have hlen := hmid.len
   rw [hi] at hlen
   simp only [List.length_cons] at hlen
+  have hsle := hmid.le
   obtain ⟨lo, hlo, hms⟩ := hsn.ms
+  obtain ⟨it, hit, hkind⟩ := hg.2
+  rw [hri] at hit
   -- the state handed to `_try_put_index`
   have h1 : MidM c { s with info := l, rcvdIdx := s.rcvdIdx + 1, numTasks := s.numTasks.modify r.w (· - 1) } := by
     refine ⟨hmid.status, hmid.sp, hmid.le, hmid.cyc, ?_, hinfo.2.2.2, hmid.wlen, hmid.msgs, hmid.resq⟩
@@ -213,80 +326,73 @@ theorem popProc_snap (c : Cfg) (s : State) (e : Info) (l : List Info) (r : Res) 
   cases hk : r.kind with
   | data b =>
     simp only
-    have hy := yieldItem_cases c s2 r b s.rcvdIdx lo hio hms2 hlo hr2 (by omega)
+    have hitb : it = .ok b := by
+      rw [hk] at hkind
+      cases it with
+      | ok b' => simp only [kindOf, Kind.data.injEq] at hkind; rw [hkind]
+      | err => simp [kindOf] at hkind
+    subst hitb
+    have hcnt : okCount c (s.rcvdIdx + 1) = okCount c s.rcvdIdx + 1 := okCount_succ c _ _ hit
+    have hokAt : okAt c s.rcvdIdx = true := okAt_ok c _ _ hit
+    have hy := yieldItem_cases c s2 r b s.rcvdIdx lo hm hms2 hlo hr2 (by omega)
     have hp := yieldItem_sameProto c s2 r b
     generalize yieldItem c s2 r b = y at hy hp
     obtain ⟨s3, o⟩ := y
     simp only at hy hp
     simp only [finish]
     cases hy with
-    | plain hno ho hny hms3 hsn3 =>
+    | plain hf ho hny hms3 hsn3 =>
       subst ho
-      constructor
-      · simp [hny, hny2, hp.obs, hobs2, yields_append, yields, hsn.ny]
-      · exact ⟨lo, by simp only [hp.rcvdIdx, hr2]; omega, by simp only [hms3, hp.sendIdx]; exact hms2⟩
-      · intro he; simp only [hny, hny2, hp.rcvdIdx, hr2, hsn.al he]
-      · intro ha; simp only [hp.obs, hobs2]; simp; exact hsn.noas ha
-      · intro h0; simp only [hsn3, hsnap2]; exact hsn.st0 h0
-      · intro h0
-        obtain ⟨d1, d2, d3⟩ := hsn.st h0
-        simp only [hsn3, hsnap2, hny, hny2]
-        refine ⟨d1, by omega, ?_⟩
-        exact step_keep _ _ _ h0 d1 d2 d3 (fun h => hno ⟨h0, by rw [hny2]; exact h⟩)
-      · intro he; simp only [hsn3, hsnap2]; exact hsn.lw he
-    | snap hI hdue hf ho hny hms3 hsn3 =>
-      subst ho
+      have hld : lastDue c (s.rcvdIdx + 1) = lastDue c s.rcvdIdx := by
+        rw [lastDue]; simp [hf]
       constructor
       · simp [hny, hny2, hp.obs, hobs2, yields_append, yields, hsn.ny]
       · exact ⟨s.rcvdIdx + 1, by simp only [hp.rcvdIdx, hr2]; omega, by simp only [hms3, hp.sendIdx]⟩
-      · intro he; simp only [hny, hny2, hp.rcvdIdx, hr2, hsn.al he]
-      · intro ha; simp only [hp.obs, hobs2]; simp; exact hsn.noas ha
-      · intro h0; exact absurd h0 hI
-      · intro _
-        simp only [hsn3, hny, hny2]
-        rw [hny2] at hdue
-        exact ⟨Nat.dvd_of_mod_eq_zero hdue, Nat.le_refl _, by omega⟩
-      · intro he
-        simp only [hsn3, hny2, hsn.al he]
-        simp only [Nat.add_one_ne_zero, if_false, Nat.add_sub_cancel, and_true]
+      · simp only [hp.rcvdIdx, hr2]; omega
+      · simp only [hny, hny2, hp.rcvdIdx, hr2, hcnt, hsn.cnt]
+      · simp only [hp.obs, hobs2]; simp; exact hsn.noas
+      · simp only [hsn3, hsnap2, hp.rcvdIdx, hr2, hld]; exact hsn.main
+      · simp only [hsn3, hsnap2]; exact hsn.step
+      · simp only [hsn3, hsnap2]; exact hsn.lastW
+    | snap hI hf ho hny hms3 hsn3 =>
+      subst ho
+      have hld : lastDue c (s.rcvdIdx + 1) = s.rcvdIdx + 1 := by
+        rw [lastDue]; simp [hf, hokAt]
+      constructor
+      · simp [hny, hny2, hp.obs, hobs2, yields_append, yields, hsn.ny]
+      · exact ⟨s.rcvdIdx + 1, by simp only [hp.rcvdIdx, hr2]; omega, by simp only [hms3, hp.sendIdx]⟩
+      · simp only [hp.rcvdIdx, hr2]; omega
+      · simp only [hny, hny2, hp.rcvdIdx, hr2, hcnt, hsn.cnt]
+      · simp only [hp.obs, hobs2]; simp; exact hsn.noas
+      · simp only [hsn3, hp.rcvdIdx, hr2, hld]
+      · simp only [hsn3, hny2, hcnt, hsn.cnt]
+      · simp only [hsn3, Nat.add_one_ne_zero, if_false, Nat.add_sub_cancel]
         rw [← hri]; exact hg.1
-    | fail hI hdue hf ho hny hms3 hsn3 =>
-      subst ho
-      have hna : ¬ (c.interval ≤ 1 ∨ errFree c) := by
-        intro ha
-        have : mflag c s.rcvdIdx = true := by
-          rcases ha with ha | ha
-          · have : c.interval = 1 := by omega
-            simp [mflag, this, Nat.mod_one]
-          · rw [hny2, hsn.al ha] at hdue
-            simp [mflag, hI, hdue]
-        rw [this] at hf; cases hf
-      constructor
-      · simp [hny, hny2, hp.obs, hobs2, yields_append, yields, hsn.ny]
-      · exact ⟨s.rcvdIdx + 1, by simp only [hp.rcvdIdx, hr2]; omega, by simp only [hms3, hp.sendIdx]⟩
-      · intro he; exact absurd (Or.inr he) hna
-      · intro ha; exact absurd ha hna
-      · intro h0; exact absurd h0 hI
-      · intro h0; simp only [hsn3, hsnap2, hny, hny2]; exact hsn.st h0
-      · intro he; exact absurd (Or.inr he) hna
   | error =>
+    have hite : it = .err := by
+      rw [hk] at hkind
+      cases it with
+      | ok b' => simp [kindOf] at hkind
+      | err => rfl
+    subst hite
+    have hcnt : okCount c (s.rcvdIdx + 1) = okCount c s.rcvdIdx := okCount_succ c _ _ hit
+    have hokAt : okAt c s.rcvdIdx = false := okAt_err c _ hit
+    have hld : lastDue c (s.rcvdIdx + 1) = lastDue c s.rcvdIdx := by
+      rw [lastDue]; simp [hokAt]
     simp only [finish]
     constructor
     · simp [hny2, hobs2, yields_append, yields, hsn.ny]
     · exact ⟨lo, by simp only [hr2]; omega, hms2⟩
-    · intro he
-      obtain ⟨b, hb⟩ := errFree_kind c r hg he
-      rw [hk] at hb; cases hb
-    · intro ha; simp only [hobs2]; simp; exact hsn.noas ha
-    · intro h0; simp only [hsnap2]; exact hsn.st0 h0
-    · intro h0; simp only [hsnap2, hny2]; exact hsn.st h0
-    · intro he; simp only [hsnap2]; exact hsn.lw he
+    · simp only [hr2]; omega
+    · simp only [hny2, hr2, hcnt, hsn.cnt]
+    · simp only [hobs2]; simp; exact hsn.noas
+    · simp only [hsnap2, hr2, hld]; exact hsn.main
+    · simp only [hsnap2]; exact hsn.step
+    · simp only [hsnap2]; exact hsn.lastW
   | notice =>
-    obtain ⟨it, _, hk'⟩ := hg.2
-    rw [hk] at hk'; exact absurd hk'.symm (kindOf_ne_notice it)
+    rw [hk] at hkind; exact absurd hkind.symm (kindOf_ne_notice it)
   | ack =>
-    obtain ⟨it, _, hk'⟩ := hg.2
-    rw [hk] at hk'; cases it <;> simp [kindOf] at hk'
+    rw [hk] at hkind; cases it <;> simp [kindOf] at hkind
 
 theorem SnapM_frame (c : Cfg) (s s' : State) (t : List Obs) (h : SnapM c s)
     (e1 : s'.numYielded = s.numYielded) (e2 : s'.obs = s.obs ++ t) (ht : yields t = [])
@@ -295,11 +401,88 @@ theorem SnapM_frame (c : Cfg) (s s' : State) (t : List Obs) (h : SnapM c s)
   constructor
   · rw [e1, e2, yields_append, ht, List.append_nil]; exact h.ny
   · rw [e3, e4, e5]; exact h.ms
-  · rw [e1, e3]; exact h.al
-  · intro ha; rw [e2]; simp only [List.mem_append, not_or]; exact ⟨h.noas ha, hta⟩
-  · rw [e6]; exact h.st0
-  · rw [e6, e1]; exact h.st
-  · rw [e6]; exact h.lw
+  · rw [e3]; exact h.le
+  · rw [e1, e3]; exact h.cnt
+  · rw [e2]; simp only [List.mem_append, not_or]; exact ⟨h.noas, hta⟩
+  · rw [e6, e3]; exact h.main
+  · rw [e6]; exact h.step
+  · rw [e6]; exact h.lastW
+
+/-! ### what the general invariant says when no fetch fails (the pre-f1014eb statements) -/
+
+theorem oks_length_noErr (l : List Item) (he : ∀ it ∈ l, it ≠ Item.err) : (oks l).length = l.length := by
+  induction l with
+  | nil => rfl
+  | cons x r ih =>
+    cases x with
+    | ok b => simp [oks, ih (fun it hit => he it (List.mem_cons_of_mem _ hit))]
+    | err => exact absurd rfl (he _ (List.mem_cons_self ..))
+
+theorem okCount_errFree (c : Cfg) (he : errFree c) (n : Nat) (hn : n ≤ c.batches.length) : okCount c n = n := by
+  unfold okCount
+  rw [oks_length_noErr _ (fun it hit => he it (List.mem_of_mem_take hit)), List.length_take]
+  omega
+
+theorem okAt_errFree (c : Cfg) (he : errFree c) (n : Nat) (hn : n < c.batches.length) : okAt c n = true := by
+  have h : c.batches[n]? = some c.batches[n] := List.getElem?_eq_getElem hn
+  cases hx : c.batches[n] with
+  | ok b => rw [hx] at h; exact okAt_ok c n b h
+  | err => exact absurd hx (he _ (List.getElem_mem hn))
+
+theorem lastDue_interval0 (c : Cfg) (h0 : c.interval = 0) (n : Nat) : lastDue c n = 0 := by
+  induction n with
+  | zero => rfl
+  | succ n ih => rw [lastDue]; simp [mflag, h0, ih]
+
+theorem lastDue_dvd (c : Cfg) (n : Nat) : c.interval ∣ lastDue c n := by
+  induction n with
+  | zero => exact Nat.dvd_zero _
+  | succ n ih =>
+    rw [lastDue]
+    split
+    · rename_i h
+      simp only [Bool.and_eq_true, mflag, decide_eq_true_eq] at h
+      exact Nat.dvd_of_mod_eq_zero h.1.2
+    · exact ih
+
+/-- Without failing fetches a snapshot is never further back than one interval. -/
+theorem lastDue_errFree_lt (c : Cfg) (he : errFree c) (hI : c.interval ≠ 0) (n : Nat) (hn : n ≤ c.batches.length) :
+    n < lastDue c n + c.interval := by
+  induction n with
+  | zero => simp [lastDue]; omega
+  | succ n ih =>
+    rw [lastDue]
+    split
+    · omega
+    · rename_i h
+      have hok := okAt_errFree c he n (by omega)
+      have hnd : ¬ (n + 1) % c.interval = 0 := by
+        intro hx; apply h; simp [mflag, hI, hx, hok]
+      exact step_keep _ _ _ hI (lastDue_dvd c n) (lastDue_le c n) (ih (by omega)) hnd
+
+/-- Error-free runs: yields and consumed tasks are aligned. -/
+theorem SnapM.al {c : Cfg} {s : State} (h : SnapM c s) (he : errFree c) : s.numYielded = s.rcvdIdx := by
+  rw [h.cnt, okCount_errFree c he _ h.le]
+
+theorem SnapM.st0 {c : Cfg} {s : State} (h : SnapM c s) (h0 : c.interval = 0) : s.snap.step = 0 := by
+  rw [h.step, h.main, lastDue_interval0 c h0]; rfl
+
+theorem SnapM.main_le {c : Cfg} {s : State} (h : SnapM c s) : s.snap.main ≤ s.rcvdIdx := by
+  rw [h.main]; exact lastDue_le c _
+
+theorem SnapM.step_main {c : Cfg} {s : State} (h : SnapM c s) (he : errFree c) : s.snap.step = s.snap.main := by
+  rw [h.step, okCount_errFree c he _ (Nat.le_trans h.main_le h.le)]
+
+/-- Error-free runs: `snapshot_step` is the largest multiple of the interval `≤ num_yielded`. -/
+theorem SnapM.st {c : Cfg} {s : State} (h : SnapM c s) (he : errFree c) (hI : c.interval ≠ 0) :
+    c.interval ∣ s.snap.step ∧ s.snap.step ≤ s.numYielded ∧ s.numYielded < s.snap.step + c.interval := by
+  rw [h.step_main he, h.al he, h.main]
+  exact ⟨lastDue_dvd c _, lastDue_le c _, lastDue_errFree_lt c he hI _ h.le⟩
+
+theorem SnapM.lw {c : Cfg} {s : State} (h : SnapM c s) (he : errFree c) :
+    s.snap.lastW = (if s.snap.step = 0 then c.W - 1 else (s.snap.step - 1) % c.W) ∧ s.snap.main = s.snap.step := by
+  rw [h.step_main he]
+  exact ⟨h.lastW, rfl⟩
 
 theorem loopCase_snap (c : Cfg) (s s' : State) (hv : c.Valid) (hm : c.iterable = false) (hio : c.inOrder = true)
     (hmid : MidM c s) (hsn : SnapM c s) (hl : LoopCase c s s') : SnapM c s' := by
@@ -386,11 +569,12 @@ theorem init_snapM (c : Cfg) (hv : c.Valid) (hm : c.iterable = false) (hio : c.i
   constructor
   · rw [hc.numYielded, hc.obs, e2, e3]; rfl
   · exact ⟨0, Nat.zero_le _, hms⟩
-  · intro _; rw [hc.numYielded, hc.rcvdIdx, e1, e3]
-  · intro _; rw [hc.obs, e2]; simp
-  · intro _; rw [hc.snap, e4]
-  · intro h0; rw [hc.snap, hc.numYielded, e3, e4]; exact ⟨Nat.dvd_zero _, Nat.le_refl _, by simp; omega⟩
-  · intro _; rw [hc.snap, e4]; simp
+  · rw [hc.rcvdIdx, e1]; exact Nat.zero_le _
+  · rw [hc.numYielded, hc.rcvdIdx, e1, e3]; rfl
+  · rw [hc.obs, e2]; simp
+  · rw [hc.snap, hc.rcvdIdx, e1, e4]; rfl
+  · rw [hc.snap, e4]; rfl
+  · rw [hc.snap, e4]; simp
 
 /-- Both invariants along any reset-free run from the initial state. -/
 theorem run_invM_snapM (c : Cfg) (as : List Action) (s s' : State) (hv : c.Valid) (hm : c.iterable = false)
